@@ -37,7 +37,14 @@ type scenario struct {
 	BlockedWrites bool `json:"client_not_reading,omitempty"`
 	// Retry: after the return the backend sends a HelloRetryRequest and the client a second hello
 	Retry bool `json:"retry_after_return,omitempty"`
+	// Fragmented: the stall offsets refer to the same hello framed in two records (the first record is complete from
+	// offset firstRecLen on, the hello is not)
+	Fragmented bool `json:"hello_in_two_records,omitempty"`
+	// PriorDeadline: the caller had set its own deadline (t=100) on the transport before calling NewConn
+	PriorDeadline bool `json:"caller_deadline_before_newconn,omitempty"`
 }
+
+const priorDeadline = 100 * unit
 
 type observation struct {
 	newConnErr  error
@@ -60,7 +67,8 @@ type observation struct {
 	helloLen    int
 }
 
-var helloRec, innerRec, hello2Rec, inner2Rec, hrrRec []byte
+var helloRec, innerRec, hello2Rec, inner2Rec, hrrRec, fragRec []byte
+var firstRecLen int
 var theKey echx.KeyPair
 
 func init() {
@@ -69,6 +77,8 @@ func init() {
 	b := echx.Spec{Key: theKey, Suite: tlsref.Suite{KDF: 1, AEAD: 1}, Outer: outer, EchIdx: idx, EncInner: echx.StdEncInner("inner.secret.example", []string{"h2"}, true),
 		InnerBase: echx.StdInnerBase(), Padding: make([]byte, 4), EphLabel: "c10"}.Build()
 	helloRec = b.Outer.Record()
+	fragRec = tlsref.Fragment(0x0301, b.Outer.Msg(), len(b.Outer.Msg())/2)
+	firstRecLen = 5 + len(b.Outer.Msg())/2
 	innerRec = tlsref.Record(22, 0x0303, b.Expected.Msg())
 	// a retried hello (after HelloRetryRequest) sealed with the same HPKE context
 	outer2, idx2 := echx.StdOuter("public.example", tlsref.DetBytes("sid", 32), 99)
@@ -115,7 +125,16 @@ func run(sc scenario, choose vs.Chooser, traceOn bool) (*observation, *vs.Sched,
 			t.Feed(helloRec[:len(helloRec)/2])
 			vs.GoNamed("client", func() { vs.Sleep(2 * unit); t.Feed(helloRec[len(helloRec)/2:]) })
 		case "stall":
-			t.Feed(helloRec[:sc.StallAt])
+			if sc.Fragmented {
+				t.Feed(fragRec[:sc.StallAt])
+			} else {
+				t.Feed(helloRec[:sc.StallAt])
+			}
+		case "two-records":
+			t.Feed(fragRec[:firstRecLen])
+			vs.GoNamed("client", func() { vs.Sleep(2 * unit); t.Feed(fragRec[firstRecLen:]) })
+		case "first-record-only":
+			t.Feed(fragRec[:firstRecLen])
 		case "never":
 		}
 		// canceller
@@ -130,6 +149,9 @@ func run(sc scenario, choose vs.Chooser, traceOn bool) (*observation, *vs.Sched,
 		var opts []ech.Option
 		if sc.Keys {
 			opts = append(opts, ech.WithKeys(echx.Keys(theKey)))
+		}
+		if sc.PriorDeadline {
+			t.SetDeadline(vs.Base.Add(priorDeadline))
 		}
 		conn, err := ech.NewConn(ctx, t, opts...)
 		ob.newConnErr, ob.returnedAt, ob.returned = err, vs.Elapsed(), true
@@ -197,8 +219,8 @@ func monitor(sc scenario, ob *observation, s *vs.Sched, t *vnet.Conn) (key, what
 	if s.Deadlock != "" {
 		return "thread-blocked-forever", s.Deadlock
 	}
-	helloComplete := sc.Hello == "buffered" || sc.Hello == "late" || sc.Hello == "two-fragments"
-	completeAt := map[string]time.Duration{"buffered": 0, "late": 1 * unit, "two-fragments": 2 * unit}[sc.Hello]
+	helloComplete := sc.Hello == "buffered" || sc.Hello == "late" || sc.Hello == "two-fragments" || sc.Hello == "two-records"
+	completeAt := map[string]time.Duration{"buffered": 0, "late": 1 * unit, "two-fragments": 2 * unit, "two-records": 2 * unit}[sc.Hello]
 	ctxEnds, ctxEndAt := false, time.Duration(0)
 	switch sc.Cancel {
 	case "t0", "t1", "t3":
@@ -229,7 +251,11 @@ func monitor(sc scenario, ob *observation, s *vs.Sched, t *vnet.Conn) (key, what
 		return "newconn-ignores-context", fmt.Sprintf("the context ended at %v, the hello only completed at %v, yet NewConn succeeded at %v", ctxEndAt, completeAt, ob.returnedAt)
 	}
 	// (b) after a successful return the context has no effect on the connection
-	if !ob.rdlAtReturn.IsZero() || !ob.wdlAtReturn.IsZero() {
+	if sc.PriorDeadline {
+		if want := vs.Base.Add(priorDeadline); !ob.rdlAtReturn.Equal(want) || !ob.wdlAtReturn.Equal(want) {
+			return "caller-deadline-changed-at-return", fmt.Sprintf("the caller had set the transport deadline to t=%v before NewConn; at the successful return it is %v/%v", priorDeadline, ob.rdlAtReturn.Sub(vs.Base), ob.wdlAtReturn.Sub(vs.Base))
+		}
+	} else if !ob.rdlAtReturn.IsZero() || !ob.wdlAtReturn.IsZero() {
 		return "deadline-left-set-at-return", fmt.Sprintf("NewConn returned successfully with transport deadlines %v/%v still set", ob.rdlAtReturn.Sub(vs.Base), ob.wdlAtReturn.Sub(vs.Base))
 	}
 	if len(ob.callsAfter) > 0 {
@@ -240,6 +266,9 @@ func monitor(sc scenario, ob *observation, s *vs.Sched, t *vnet.Conn) (key, what
 		wantN := len(innerRec)
 		if !sc.Keys {
 			wantN = len(helloRec) // no keys: the outer hello is passed through
+			if sc.Hello == "two-records" {
+				wantN = len(fragRec) // ... in the client's own framing
+			}
 		}
 		if ob.readErr != nil || ob.readN != wantN {
 			return "read-after-return-fails", fmt.Sprintf("Conn.Read after a successful NewConn: n=%d err=%v (want the %d-byte hello)", ob.readN, ob.readErr, wantN)
@@ -256,19 +285,24 @@ func monitor(sc scenario, ob *observation, s *vs.Sched, t *vnet.Conn) (key, what
 
 func scenarios() []scenario {
 	var out []scenario
-	for _, h := range []string{"buffered", "late", "two-fragments", "never"} {
+	for _, h := range []string{"buffered", "late", "two-fragments", "never", "two-records", "first-record-only"} {
 		for _, c := range []string{"never", "t0", "t1", "t3", "after-return", "deadline2", "deadline5-cancelled-at-1"} {
-			if h == "never" && (c == "never" || c == "after-return") {
+			never := h == "never" || h == "first-record-only"
+			if never && (c == "never" || c == "after-return") {
 				continue // NewConn legitimately blocks forever
 			}
 			for _, k := range []bool{true, false} {
 				out = append(out, scenario{Hello: h, Cancel: c, Keys: k})
-				if k && h != "never" {
+				if k && !never {
 					out = append(out, scenario{Hello: h, Cancel: c, Keys: k, Retry: true})
+				}
+				if !never && h != "two-fragments" {
+					// the caller's own deadline, set before the call, must come back untouched
+					out = append(out, scenario{Hello: h, Cancel: c, Keys: k, PriorDeadline: true})
 				}
 			}
 			// the context ends while NewConn is blocked and the client does not read either: NewConn must still fail promptly
-			if (h == "never" || h == "two-fragments") && (c == "t1" || c == "deadline2" || c == "t0") {
+			if (never || h == "two-fragments") && (c == "t1" || c == "deadline2" || c == "t0") {
 				out = append(out, scenario{Hello: h, Cancel: c, Keys: true, BlockedWrites: true})
 			}
 		}
@@ -286,6 +320,17 @@ func stallScenarios(thorough bool) []scenario {
 		for _, c := range []string{"deadline2", "t1"} {
 			for _, blocked := range []bool{false, true} {
 				out = append(out, scenario{Hello: "stall", StallAt: o, Cancel: c, Keys: true, BlockedWrites: blocked})
+			}
+		}
+	}
+	// the same hello framed in two records: a stall at every offset of the SECOND record (the first one is complete)
+	for o := firstRecLen; o < len(fragRec); o++ {
+		if !thorough && o > firstRecLen+8 && o < len(fragRec)-4 && o%11 != 0 {
+			continue
+		}
+		for _, c := range []string{"deadline2", "t1"} {
+			for _, blocked := range []bool{false, true} {
+				out = append(out, scenario{Hello: "stall", StallAt: o, Cancel: c, Keys: true, BlockedWrites: blocked, Fragmented: true})
 			}
 		}
 	}
@@ -404,7 +449,7 @@ func Run(r *ev.Run, replay string) {
 		return
 	}
 	b := bound(r.Tier)
-	r.Rule(fmt.Sprintf("E3 stateless exploration of the real NewConn (sources rewritten into scheduler shims at check time) in virtual time: scenarios = hello {already buffered, arriving at t=1, in two fragments at t=0 and t=2, never} x context {never ends, cancelled by another thread at t=0/1/3, cancelled by the caller right after NewConn returned, deadline at t=2, deadline at t=5 cancelled at t=1} x keys {yes,no} x {plain use, HelloRetryRequest + second hello after the return}; threads = caller (NewConn, then Read/Write on the result), canceller, client, and the watcher NewConn spawns; ALL schedules with at most %d deviations (preemption / non-canonical thread pick, non-first ready select case, timer order). Monitors: NewConn fails only if the context ended before the hello was complete and then no later than that instant; after a successful return no deadline call starts, no deadline is left set, and the caller's I/O succeeds. distinct = distinct scenarios", b))
+	r.Rule(fmt.Sprintf("E3 stateless exploration of the real NewConn (sources rewritten into scheduler shims at check time) in virtual time: scenarios = hello {already buffered, arriving at t=1, in two fragments at t=0 and t=2, in two TLS records at t=0 and t=2, only the first of two records, never} x context {never ends, cancelled by another thread at t=0/1/3, cancelled by the caller right after NewConn returned, deadline at t=2, deadline at t=5 cancelled at t=1} x keys {yes,no} x {plain use, HelloRetryRequest + second hello after the return, caller's own transport deadline set before the call}; threads = caller (NewConn, then Read/Write on the result), canceller, client, and the watcher NewConn spawns; ALL schedules with at most %d deviations (preemption / non-canonical thread pick, non-first ready select case, timer order). Monitors: NewConn fails only if the context ended before the hello was complete and then no later than that instant; after a successful return no deadline call starts, no deadline is left set (a deadline the caller had set before is still exactly that), and the caller's I/O succeeds. distinct = distinct scenarios", b))
 	r.Assume("computation takes zero virtual time; sequentially consistent memory at synchronisation granularity", "the transport is a scheduler-aware fake whose Read honours deadlines")
 	explore(r, scenarios(), b, "c10")
 }
@@ -412,6 +457,6 @@ func Run(r *ev.Run, replay string) {
 // RunDeadline is the deadline clause of C08 (invoked by the C08 check through the instrumented binary).
 func RunDeadline(r *ev.Run) {
 	b := 2
-	r.Rule(fmt.Sprintf("E3: the client delivers the first o bytes of the first record for every offset o (quick: offsets 0..12, the last 6 and every 9th) and then stalls; the context has a deadline at t=2 or is cancelled at t=1; the client transport either accepts writes or never does (peer not reading); all schedules with at most %d deviations; NewConn must return an error no later than the end of the context and no thread may stay blocked. distinct = distinct scenarios", b))
+	r.Rule(fmt.Sprintf("E3: the client delivers the first o bytes of the first record for every offset o (quick: offsets 0..12, the last 6 and every 9th) and then stalls, for the hello in one record and for the same hello framed in two records (offsets in the second record); the context has a deadline at t=2 or is cancelled at t=1; the client transport either accepts writes or never does (peer not reading); all schedules with at most %d deviations; NewConn must return an error no later than the end of the context and no thread may stay blocked. distinct = distinct scenarios", b))
 	explore(r, stallScenarios(r.Thorough()), b, "c08-deadline")
 }
